@@ -317,6 +317,23 @@ impl AnnotatedLexer<'_> {
             None => Err(LexError::UnexpectedEOF),
         }
     }
+
+    /// Whether the next token is `(`. An optional operand may be absent on
+    /// the last line of a file, so the end of the input is not an error here.
+    fn peek_lparen(&mut self) -> Result<bool, LexError> {
+        match self.lexer.peek() {
+            Some(item) => Ok(item.clone()?.as_lparen().is_ok()),
+            None => Ok(false),
+        }
+    }
+
+    /// The next token if it is a register; `None` at the end of the input.
+    fn peek_reg(&mut self) -> Result<Option<With<Register>>, LexError> {
+        match self.lexer.peek() {
+            Some(item) => Ok(item.clone()?.as_reg().ok()),
+            None => Ok(None),
+        }
+    }
 }
 
 struct AnnotatedLexer<'a> {
@@ -451,7 +468,7 @@ impl TryFrom<&mut Peekable<Lexer>> for ParserNode {
                                     lex.raw_token,
                                 ))
                             } else if let Ok(imm) = next.as_imm() {
-                                if let Ok(()) = lex.peek_any()?.as_lparen() {
+                                if lex.peek_lparen()? {
                                     lex.get_any()?;
                                     let rs1 = lex.get_reg()?;
                                     lex.expect_rparen()?;
@@ -495,7 +512,7 @@ impl TryFrom<&mut Peekable<Lexer>> for ParserNode {
                             let rd = lex.get_reg()?;
                             let next = lex.get_any()?;
                             return if let Ok(imm) = next.as_imm() {
-                                if let Ok(()) = lex.peek_any()?.as_lparen() {
+                                if lex.peek_lparen()? {
                                     lex.get_any()?;
                                     let rs1 = lex.get_reg()?;
                                     lex.expect_rparen()?;
@@ -557,7 +574,7 @@ impl TryFrom<&mut Peekable<Lexer>> for ParserNode {
                             let next = lex.get_any()?;
 
                             return if let Ok(imm) = next.as_imm() {
-                                if let Ok(()) = lex.peek_any()?.as_lparen() {
+                                if lex.peek_lparen()? {
                                     lex.get_any()?;
                                     let rs1 = lex.get_reg()?;
                                     lex.expect_rparen()?;
@@ -568,7 +585,7 @@ impl TryFrom<&mut Peekable<Lexer>> for ParserNode {
                                         imm,
                                         lex.raw_token,
                                     ))
-                                } else if let Ok(tmp) = lex.peek_any()?.as_reg() {
+                                } else if let Some(tmp) = lex.peek_reg()? {
                                     lex.get_any()?;
                                     Err(LexError::NeedTwoNodes(
                                         Box::new(ParserNode::new_iarith(
